@@ -77,6 +77,11 @@ def shapes() -> Dict[str, Dict[str, Tables]]:
         ("in", [_in("B1", "2021-03-10 10:00:00+00:00", "1", "100"), _in("B1", "2021-03-15 08:30:00+09:00", "1", "120", ex="X1", uid="late-lot")]),
         ("out", [_out("B1", "2021-03-12 10:00:00+00:00", "1", "110"), _out("B1", "2021-03-15 02:00:00+00:00", "1", "130", uid="needs-late-lot")]),
     ]}
+    out["large_magnitudes"] = {"B1": [
+        # a cheap token held in tens of millions of units, and an eight-digit spot price (a coin quoted in yen)
+        ("in", [_in("B1", "2020-02-02 10:00:00+00:00", "25000000", "0.00000123"), _in("B1", "2020-03-03 10:00:00+00:00", "0.75", "12345678.9")]),
+        ("out", [_out("B1", "2021-04-04 10:00:00+00:00", "12500000.5", "0.00000456", fee="100"), _out("B1", "2021-05-05 10:00:00+00:00", "0.25", "23456789.01", "GIFT")]),
+    ]}
     out["late_starter"] = {"B1": basic("B1"), "B2": [("in", [_in("B2", "2021-02-01 10:00:00+00:00", "3", "50")]), ("out", [_out("B2", "2021-09-01 10:00:00+00:00", "1", "80")])]}
     many = [_in("B1", (date(2020, 1, 1) + timedelta(days=7 * i)).isoformat() + " 10:00:00+00:00", "0.1", str(100 + i), uid=f"B1-lot-{i}") for i in range(30)]
     out["many_lots"] = {"B1": [("in", many + [_in("B1", "2020-12-01 10:00:00+00:00", "0.05", "500", "INTEREST")]), ("out", [_out("B1", "2021-02-01 10:00:00+00:00", "2.95", "600")])]}
